@@ -64,16 +64,25 @@ class World:
         self._prev = None
         self.keep = keep
 
-    def __enter__(self):
+    def create(self):
+        """Creates the world directory without entering it."""
         b = base_dir()
         _counter[0] += 1
         self.root = os.path.join(b, f"w{os.getpid()}-{_counter[0]}")
         os.makedirs(self.root)
+        os.makedirs(os.path.join(self.root, "config"))
+        os.makedirs(os.path.join(self.root, "src"))
+        self.write_config()
+        return self
+
+    def destroy(self):
+        if not self.keep and self.root:
+            shutil.rmtree(self.root, ignore_errors=True)
+
+    def __enter__(self):
+        self.create()
         self._prev = os.getcwd()
         os.chdir(self.root)
-        os.makedirs("config")
-        os.makedirs("src")
-        self.write_config()
         return self
 
     def write_config(self, csvpath_policy=None, csvpaths_policy=None):
@@ -93,8 +102,7 @@ class World:
 
     def __exit__(self, *exc):
         os.chdir(self._prev)
-        if not self.keep:
-            shutil.rmtree(self.root, ignore_errors=True)
+        self.destroy()
         return False
 
     # ---- helpers used by harness code only (never by csvpath) ----
